@@ -19,6 +19,7 @@ KINDS = {
     7: 'model and code disagree on the result class of VerifyPacketCommitment/Acknowledgement',
     8: 'VerifyPacketCommitment/Acknowledgement changed the client store',
     9: 'no client state in the observed client store',
+    10: 'model and code disagree on the result class of ClientState.Validate',
     11: 'header accepted although the trusted validator set does not hash to the next-validators hash stored at the trusted height (or no such consensus state)',
     12: 'header accepted although it is not newer than the trusted height in the same revision',
     13: 'header accepted although the trusted state is expired or the header time is outside (trusted time, now + drift)',
@@ -183,7 +184,7 @@ def step_term(T, st, o):
 
 def hist_term(T, r):
     steps = [step_term(T, st, o) for st, o in zip(r['spec']['steps'], r['obs'])]
-    return '(Build_hist %s %s)' % (T.store(r['init_store']), coq_list(steps))
+    return '(Build_hist %s %d%%nat %s)' % (T.store(r['init_store']), r.get('client_valid', 0), coq_list(steps))
 
 
 def evaluate(workdir, results, tag='cases'):
